@@ -186,3 +186,6 @@ func VerifAdapterState(n *Namespace) map[string][]string {
 	}
 	return out
 }
+
+// VerifEIOSessionIDs lists the live Engine.IO session ids of the server (no locking).
+func (s *Server) VerifEIOSessionIDs() []string { return s.eio.VerifSessionIDs() }
